@@ -94,6 +94,8 @@ pub struct DirModel {
     pub base_pid: u32,
     pub next_pid: u32,
     pid_map: VecDeque<usize>,
+    /// (packet id, submission) of packets an accepted window ack has passed, newest last
+    passed_recent: VecDeque<(u32, usize)>,
     frames: HashMap<u32, FrameRec>,
     expect_frame_id: Option<u32>,
 
@@ -153,6 +155,7 @@ impl DirModel {
             base_pid: tx_nonce & PID_MASK,
             next_pid: tx_nonce & PID_MASK,
             pid_map: VecDeque::new(),
+            passed_recent: VecDeque::new(),
             frames: HashMap::new(),
             expect_frame_id: Some(tx_nonce),
             window,
@@ -421,6 +424,19 @@ impl DirModel {
                 }
             } else if off < span {
                 self.pid_map[off as usize]
+            } else if let Some(&(_, idx)) = self.passed_recent.iter().rev().find(|(p, _)| *p == pid) {
+                // a packet the receiver has reported moving past (accepted window ack) is on the wire again
+                let s = &self.subs[idx];
+                let f = dg.fragment_id as usize;
+                let same = dg.channel_id == s.chan && dg.fragment_id_last as u32 == s.nfrag - 1 && (f as u32) < s.nfrag && payload::matches(s.pay_uid, s.len, f * MAX_FRAGMENT_SIZE, &dg.data);
+                let (name, l) = (s.mode.name(), s.len);
+                if same {
+                    self.viol("C12", "retransmit-after-pass", format!("fragment {} of {} submission #{} (packet id {}, {} bytes) transmitted after the receiver reported moving past the packet", f, name, idx, pid, l));
+                } else {
+                    let (b, n) = (self.base_pid, self.next_pid);
+                    self.viol("C01", "wire-packet-id-out-of-window", format!("packet id {} on the wire outside the sender's own window [{}, {}) and not the next id (the id last belonged to submission #{}, whose bytes these are not)", pid, b, n, idx));
+                }
+                continue;
             } else {
                 let (b, n) = (self.base_pid, self.next_pid);
                 self.viol("C01", "wire-packet-id-out-of-window", format!("packet id {} on the wire outside the sender's own window [{}, {}) and not the next id", pid, b, n));
@@ -547,6 +563,10 @@ impl DirModel {
         }
         for _ in 0..delta {
             let idx = self.pid_map.pop_front().unwrap();
+            if self.passed_recent.len() >= 8192 {
+                self.passed_recent.pop_front();
+            }
+            self.passed_recent.push_back((self.base_pid, idx));
             let s = &mut self.subs[idx];
             s.passed = true;
             self.n_unsettled -= 1;
